@@ -722,6 +722,9 @@ func (g *Gen) cellSort(key interface{}) (string, types.Type) {
 		t := k.Type().(*types.Pointer).Elem()
 		return g.sortOf(t), t
 	case *ssa.Range:
+		if mt, ok := k.X.Type().Underlying().(*types.Map); ok {
+			return fmt.Sprintf("(Array %s Bool)", g.sortOf(mt.Key())), nil
+		}
 		return g.idxSort(), intT
 	case *ssa.Defer:
 		return "Bool", nil
